@@ -30,8 +30,9 @@ MANIFEST = {
             "value in both nibble positions / both letter cases and on structured inputs incl. short buffers; a "
             "finding of the structure proofs D1 / D2 needs such a witness), D3 (C++ decode helper sizes its "
             "result from the decoder), D4 (copy-on-write exclusivity typestate of the ASCON_NO_STL byte_array) "
-            "and D4s (byte_array::cmp has std::vector ordering on every ordered pair of small array "
-            "representations); round-trip equality for all inputs follows informally but is not proved",
+            "D4s (byte_array::cmp has std::vector ordering on every ordered pair of small array "
+            "representations) and D4a (operator= has value semantics with exact reference counts on every ownership "
+            "shape incl. self-assignment); round-trip equality for all inputs follows informally but is not proved",
     "note": "trusted: clang lowering, irdump; std::vector itself; the byte_array analysis models "
             "ownership with a two-point lattice (exclusive / possibly shared)",
     "technique": "value-set abstract interpretation of a code slice over a finite domain, dominance/guard "
